@@ -61,13 +61,23 @@ class FittedNode(OptNode):
     fitted_operation = True
 
 
-def build_graph(spec, node_cls=OptNode):
+def grow_layers_mutation(graph, requirements=None, graph_gen_params=None, parameters=None, **kwargs):
+    """a user mutation that edits a container-valued node parameter IN PLACE on the graph it is given (the operator hands
+    it a deep copy of the parent's graph, so the parent must stay as it was)"""
+    nodes = [n for n in graph.nodes if isinstance(n.parameters.get('layers'), list)]
+    if nodes:
+        random.choice(nodes).parameters['layers'].append(1)
+    return graph
+
+
+def build_graph(spec, node_cls=OptNode, container_params=False):
     made = []
 
     def mk(s):
         if s[0] == '@':
             return made[s[1]]
-        node = node_cls(s[0], [mk(p) for p in s[1]])
+        content = {'name': s[0], 'params': {'layers': [1]}} if container_params else s[0]
+        node = node_cls(content, [mk(p) for p in s[1]])
         made.append(node)
         return node
     return OptGraph(mk(spec))
@@ -95,6 +105,8 @@ def make_rule(spec):
             ok = len(graph.nodes) <= arg
         elif kind == 'no_label':
             ok = all(str(n) != arg for n in graph.nodes)
+        elif kind == 'max_layers':  # a rule on a container-valued node parameter
+            ok = all(len(n.parameters.get('layers', [])) <= arg for n in graph.nodes)
         elif kind == 'root_in':     # every final node carries one of the given labels: NOT closed under taking subtrees
             roots = graph.root_nodes() if hasattr(graph, 'root_nodes') else [graph.root_node]
             ok = all(str(n) in arg for n in roots)
@@ -244,7 +256,8 @@ def make_optimiser(cfg, log, history_dir=None):
         elitism_type=ElitismTypesEnum[cfg.get('elitism', 'keep_n_best')],
         selection_types=[SelectionTypesEnum[s] for s in cfg.get('selection', ['tournament'])],
         crossover_types=[CrossoverTypesEnum[c] for c in cfg.get('crossover', ['subtree', 'one_point'])],
-        mutation_types=[MutationTypesEnum[m] for m in cfg.get('mutation', ['single_add', 'single_change', 'single_drop', 'single_edge'])],
+        mutation_types=[grow_layers_mutation if m == 'grow_layers' else MutationTypesEnum[m]
+                        for m in cfg.get('mutation', ['single_add', 'single_change', 'single_drop', 'single_edge'])],
         crossover_prob=cfg.get('crossover_prob', 0.8),
         mutation_prob=cfg.get('mutation_prob', 0.8),
         structural_diversity_frequency_check=cfg.get('diversity_check', -1),
@@ -264,7 +277,7 @@ def make_optimiser(cfg, log, history_dir=None):
         if hasattr(gen.random_graph_factory, 'verifier'):
             gen.random_graph_factory.verifier = sub
     node_cls = FittedNode if cfg.get('fitted_nodes') else OptNode
-    initial = [build_graph(s, node_cls) for s in INITIAL_GRAPHS[cfg.get('initial', 'two')]]
+    initial = [build_graph(s, node_cls, bool(cfg.get('container_params'))) for s in INITIAL_GRAPHS[cfg.get('initial', 'two')]]
     cls = OPTIMISERS[cfg['optimiser']]
     opt = cls(objective, initial, req, gen, gp)
     return opt, objective, gen
@@ -546,6 +559,18 @@ def unsatisfiable_generator_config(rng):
     cfg.update({'rule': ['max_nodes', 2, rng.choice(['false', 'raise'])], 'initial': 'single', 'max_depth': rng.choice([2, 3]),
                 'num_of_generations': rng.choice([2, 3]), 'early_stopping_iterations': None})
     cfg['objective'] = {'metrics': [rng.choice(['size', 'neg_size'])], 'multi': False}
+    return cfg
+
+
+def container_params_config(rng):
+    """node parameters holding lists, a user mutation that appends to them in place and a rule on their length: a parent
+    that was verified and archived must not be altered when its offspring is edited"""
+    cfg = random_config(rng, optimiser=rng.choice(['evo', 'evo', 'pop_random_mutation', 'random_mutation', 'surrogate']), multi=False)
+    cfg.update({'container_params': True, 'rule': ['max_layers', rng.choice([1, 2]), rng.choice(['false', 'false', 'raise'])],
+                'mutation': rng.choice([['grow_layers'], ['grow_layers', 'single_change']]), 'crossover': ['none'],
+                'mutation_prob': 1.0, 'initial': rng.choice(['two', 'three', 'chain']), 'num_of_generations': rng.choice([3, 4]),
+                'early_stopping_iterations': None, 'operator_attempts': rng.choice([3, 5])})
+    cfg['objective'] = {'metrics': [rng.choice(['size', 'balance', 'label'])], 'multi': False}
     return cfg
 
 
